@@ -189,6 +189,10 @@ pub enum Op {
     /// same thread. k = 0: `with` inside `with_mut` ("currently writing"), 1: `with_mut` inside
     /// `with` ("currently reading"), 2: `with_mut` inside `with_mut`
     CellNested { c: u8, k: u8 },
+    /// from here on the await loops of this thread also bump a private (thread-owned) loom atomic in
+    /// every iteration: `loop { polls.fetch_add(1, Relaxed); if flag.load(o) == v { break } yield }`.
+    /// No effect on what the program can compute (nobody else touches the counter).
+    LoopCounter,
     StopExploring,
     Explore,
     SkipBranch,
@@ -450,6 +454,7 @@ impl fmt::Display for Op {
             DropGuardStore { a } => write!(f, "x{}.store_on_drop", a),
             PanicInCellMut { c } => write!(f, "c{}.with_mut(panic)", c),
             CellNested { c, k } => write!(f, "c{}.nested({})", c, k),
+            LoopCounter => write!(f, "count_polls"),
             PanicInAtomMut { a } => write!(f, "x{}.with_mut(panic)", a),
             StopExploring => write!(f, "stop_exploring"),
             Explore => write!(f, "explore"),
